@@ -157,7 +157,7 @@ def draw_params(draw, name, t, opts, depth_left, no_ct, tainted=False):
         s = draw(ints(1, 5))
         return [name, w, s, draw(chain(t, opts, depth_left - 1, no_ct=False, tainted=tainted))]
     if name == 'split':
-        return [name, draw(st.sampled_from(['div', 'mod', 'nonemod', 'gkey', 'nanmod', 'tokdiv'])), draw(ints(2, 3)), draw(chain(t, opts, depth_left - 1, no_ct=False, tainted=tainted))]
+        return [name, draw(st.sampled_from(['div', 'mod', 'nonemod', 'gkey', 'nanmod', 'tokdiv', 'bigf'])), draw(ints(2, 3)), draw(chain(t, opts, depth_left - 1, no_ct=False, tainted=tainted))]
     if name == 'time_split':
         active = draw(st.sampled_from([None, 1, 3, 5, 8, 0]))
         inactive = draw(st.sampled_from([None, 1, 2, 3, 0]))
